@@ -63,6 +63,9 @@ func genConc(rng *rand.Rand, idx int, tier string) Case {
 				calls = append(calls, map[string]interface{}{"kind": "setcontinue"})
 			case r < 56:
 				calls = append(calls, map[string]interface{}{"kind": "newspec"})
+			case r < 64:
+				// whole-specification validation of a small document, each call with a validator and a document of its own
+				calls = append(calls, map[string]interface{}{"kind": "spec", "doc": rng.Intn(len(miniSpecs))})
 			default:
 				c := g.historyCall(tier)
 				if asStr(c["kind"]) == "spec" && rng.Intn(3) > 0 {
